@@ -1,12 +1,13 @@
 /-
   C13/Model — transcription of otto's Math object and global URI / escape functions.
 
-  builtin_math.go: builtinMathAbs (l.10) … builtinMathTrunc (l.207): every function is
-    `float64Value(math.F(call.Argument(0).float64()))`, except atan2 (l.40, NaN guards), max (l.120),
-    min (l.141), pow (l.162, |x|==1 ∧ y=±Inf guard), round (l.182, floor(x+0.5) + Copysign).
-  builtin.go: builtinGlobalIsNaN (l.36), builtinGlobalIsFinite (l.41), encodeDecodeURI (l.166),
-    encodeURIRegexp (l.214), encodeURIComponentRegexp (l.220), decodeURIGuard (l.227), decodeURI (l.229),
-    builtinShouldEscape (l.258), builtinEscape (l.267), builtinUnescape (l.297).
+  builtin_math.go: builtinMathAbs (l.10) … builtinMathTrunc (l.211): every function is
+    `float64Value(math.F(call.Argument(0).float64()))`, except atan2 (l.40, NaN guards), max (l.112),
+    min (l.133), pow (l.154, NaN exponent and |x|==1 ∧ y=±Inf guard), round (l.174, floor(x) + exact
+    fraction test + Copysign).
+  builtin.go: builtinGlobalIsNaN (l.35), builtinGlobalIsFinite (l.40), encodeDecodeURI (l.168),
+    encodeURIRegexp (l.216), encodeURIComponentRegexp (l.222), decodeURIGuard (l.229), decodeURI (l.231),
+    builtinShouldEscape (l.261), builtinEscape (l.270), builtinUnescape (l.300).
 
   Go library behaviour that otto relies on is written out here as stubs (trusted base §2.6, validated
   per sample by the harness): the special-case prologues of math.Sin/Cos/…/Pow/Atan2/Max/Min
@@ -115,9 +116,11 @@ def mathFloor (x : FV) : FV := floor x
 def mathCeil (x : FV) : FV := ceil x
 def mathTrunc (x : FV) : FV := trunc x
 
-/-- builtinMathRound (l.182): `value := math.Floor(number + 0.5); if value == 0 { value = math.Copysign(0, number) }` -/
+/-- builtinMathRound (l.174): `value := math.Floor(number); if number-value >= 0.5 { value++ };
+    if value == 0 { value = math.Copysign(0, number) }` -/
 def mathRound (x : FV) : FV :=
-  let value := floor (add x half)
+  let value := floor x
+  let value := if le half (sub x value) then add value one else value
   if isZero value then copysign zero x else value
 
 /-- math.Max (dim.go l.35 / dim_amd64.s) -/
@@ -139,17 +142,29 @@ def foldNaN (op : FV → FV → FV) : FV → List FV → FV
   | r, [] => r
   | r, v :: rest => if isNaN v then .nan else foldNaN op (op r v) rest
 
-/-- builtinMathMax (l.120) -/
+/-- builtinMathMax (l.112) -/
 def mathMax : List FV → FV
   | [] => .inf true
   | [a] => a
   | a :: rest => if isNaN a then .nan else foldNaN goMax a rest
 
-/-- builtinMathMin (l.141) -/
+/-- builtinMathMin (l.133) -/
 def mathMin : List FV → FV
   | [] => .inf false
   | [a] => a
   | a :: rest => if isNaN a then .nan else foldNaN goMin a rest
+
+/-- How many arguments builtinMathMax/Min convert with `.float64()` (ToNumber; observable when an argument
+    is an object with a valueOf): the `for … range` loop returns at the first NaN it meets. -/
+def convertedLoop : List FV → Nat
+  | [] => 0
+  | v :: rest => if isNaN v then 1 else 1 + convertedLoop rest
+
+/-- builtinMathMax (l.112) / builtinMathMin (l.133): number of converted arguments (a prefix of the list) -/
+def maxMinConverted : List FV → Nat
+  | [] => 0
+  | [_] => 1
+  | a :: rest => if isNaN a then 1 else 1 + convertedLoop rest
 
 /-- pow.go isOddInt (l.7): `Abs(x) >= 1<<53 → false; xi, xf := Modf(x); xf == 0 && int64(xi)&1 == 1` -/
 def isOddInt (x : FV) : Bool :=
@@ -191,9 +206,9 @@ def goPow (L : Lib) (x y : FV) : FV :=
       else L.powCore x y
     | _, _ => .nan
 
-/-- builtinMathPow (l.162): `if math.Abs(x) == 1 && math.IsInf(y, 0) { return NaN }` -/
+/-- builtinMathPow (l.154): `if math.IsNaN(y) || (math.Abs(x) == 1 && math.IsInf(y, 0)) { return NaN }` -/
 def mathPow (L : Lib) (x y : FV) : FV :=
-  if eqNum (abs x) one && isInf y then .nan else goPow L x y
+  if isNaN y || (eqNum (abs x) one && isInf y) then .nan else goPow L x y
 
 /-- math.Atan2 (atan2.go l.37) -/
 def goAtan2 (L : Lib) (y x : FV) : FV :=
@@ -214,9 +229,9 @@ def goAtan2 (L : Lib) (y x : FV) : FV :=
 def mathAtan2 (L : Lib) (y x : FV) : FV :=
   if isNaN y then .nan else if isNaN x then .nan else goAtan2 L y x
 
-/-- builtinGlobalIsNaN (builtin.go l.36) -/
+/-- builtinGlobalIsNaN (builtin.go l.35) -/
 def globalIsNaN (E : C05.Env) (v : C05.Val) : Bool := isNaN (C05.toFloat E v)
-/-- builtinGlobalIsFinite (builtin.go l.41) -/
+/-- builtinGlobalIsFinite (builtin.go l.40) -/
 def globalIsFinite (E : C05.Env) (v : C05.Val) : Bool :=
   let x := C05.toFloat E v
   !isNaN x && !isInf x
@@ -248,12 +263,12 @@ def urlShouldEscape (c : Nat) : Bool := !(isAlnum c || c = 45 || c = 95 || c = 4
 def queryEscape (bs : List Nat) : List Nat :=
   bs.flatMap fun c => if c = 32 then [43] else if urlShouldEscape c then pct c else [c]
 
-/-- characters NOT matched by encodeURIRegexp `[^~!@#$&*()=:/,;?+']` (l.214) -/
+/-- characters NOT matched by encodeURIRegexp `[^~!@#$&*()=:/,;?+']` (l.216) -/
 def keepURI : List Nat := [126, 33, 64, 35, 36, 38, 42, 40, 41, 61, 58, 47, 44, 59, 63, 43, 39]
-/-- characters NOT matched by encodeURIComponentRegexp `[^~!*()']` (l.220) -/
+/-- characters NOT matched by encodeURIComponentRegexp `[^~!*()']` (l.222) -/
 def keepComponent : List Nat := [126, 33, 42, 40, 41, 39]
 
-/-- the loop of encodeDecodeURI (l.181–205): code units → UTF-8 bytes, `none` = URIError -/
+/-- the loop of encodeDecodeURI (l.183–207): code units → UTF-8 bytes, `none` = URIError -/
 def encLoop : List Nat → Option (List Nat)
   | [] => some []
   | v :: v1 :: rest =>
@@ -267,13 +282,13 @@ def encLoop : List Nat → Option (List Nat)
     else if 0xD800 ≤ v ∧ v ≤ 0xDBFF then none
     else some (encodeRune v)
 
-/-- the callback of `escape.ReplaceAllFunc` (l.207) applied to one matched/unmatched rune -/
+/-- the callback of `escape.ReplaceAllFunc` (l.209) applied to one matched/unmatched rune -/
 def replaceRune (keep : List Nat) (r : Nat) : List Nat :=
   if keep.contains r then encodeRune r
   else if r = 32 then [37, 50, 48]
   else queryEscape (encodeRune r)
 
-/-- encodeDecodeURI (l.166); result bytes, `none` = URIError -/
+/-- encodeDecodeURI (l.168); result bytes, `none` = URIError -/
 def encodeDecodeURI (keep : List Nat) (v : SV) : Option (List Nat) :=
   let input := match v with
     | .u16 u => u
@@ -288,7 +303,7 @@ def isHex (c : Nat) : Bool := (48 ≤ c ∧ c ≤ 57) ∨ (65 ≤ c ∧ c ≤ 70
 def unhex (c : Nat) : Nat := if c ≤ 57 then c - 48 else if c ≤ 70 then c - 55 else c - 87
 def asciiUpper (c : Nat) : Nat := if 97 ≤ c ∧ c ≤ 122 then c - 32 else c
 
-/-- the alternatives of decodeURIGuard `(?i)(?:%)(3B|2F|3F|3A|40|26|3D|2B|24|2C|23)` (l.227) -/
+/-- the alternatives of decodeURIGuard `(?i)(?:%)(3B|2F|3F|3A|40|26|3D|2B|24|2C|23)` (l.229) -/
 def guardCodes : List (Nat × Nat) :=
   [(51, 66), (50, 70), (51, 70), (51, 65), (52, 48), (50, 54), (51, 68), (50, 66), (50, 52), (50, 67), (50, 51)]
 def isGuard (a b : Nat) : Bool := guardCodes.contains (asciiUpper a, asciiUpper b)
@@ -312,7 +327,7 @@ def queryUnescape : List Nat → Option (List Nat)
   | c :: t => (queryUnescape t).map (c :: ·)
   | [] => some []
 
-/-- decodeURI (l.229); result bytes, `none` = URIError -/
+/-- decodeURI (l.231); result bytes, `none` = URIError -/
 def decodeURI (reserve : Bool) (v : SV) : Option (List Nat) :=
   let input := v.string
   let input := if reserve then guard input else input
@@ -321,18 +336,17 @@ def decodeURI (reserve : Bool) (v : SV) : Option (List Nat) :=
   | none => none
   | some out => if validUTF8 out then some out else none
 
-/-- builtinShouldEscape (l.258): alnum and `*_+-./` are kept -/
-def shouldEscape (c : Nat) : Bool := !(isAlnum c || [42, 95, 43, 45, 46, 47].contains c)
+/-- builtinShouldEscape (l.261): alnum and `@*_+-./` are kept -/
+def shouldEscape (c : Nat) : Bool := !(isAlnum c || [64, 42, 95, 43, 45, 46, 47].contains c)
 
 def pctU (u : Nat) : List Nat :=
   [37, 117, hexUpper (u / 4096), hexUpper ((u / 256) % 16), hexUpper ((u / 16) % 16), hexUpper (u % 16)]
 
-/-- the escape of one rune: `chr16 := utf16.Encode([]rune{chr})[0]` — only the FIRST unit -/
+/-- the escape of one rune: `for _, chr16 := range utf16.Encode([]rune{chr})` — %XX below 256, else %uXXXX -/
 def escapeRune (r : Nat) : List Nat :=
-  let chr16 := (utf16Encode [r]).headD runeError
-  if chr16 < 256 then pct chr16 else pctU chr16
+  (utf16Encode [r]).flatMap fun chr16 => if chr16 < 256 then pct chr16 else pctU chr16
 
-/-- builtinEscape (l.267), fuel = len(input) -/
+/-- builtinEscape (l.270), fuel = len(input) -/
 def escapeAux : Nat → List Nat → List Nat
   | 0, _ => []
   | _, [] => []
@@ -345,23 +359,24 @@ def escapeAux : Nat → List Nat → List Nat
 
 def escape (v : SV) : List Nat := let s := v.string; escapeAux s.length s
 
-/-- `utf16.Decode([]uint16{value})[0]` -/
-def decode1 (u : Nat) : Nat := if 0xD800 ≤ u ∧ u < 0xE000 then runeError else u
-
-/-- the loop of builtinUnescape (l.297): bytes → runes.  A byte that is not part of an escape is
-    appended as `rune(input[index])`. -/
-def unescapeRunes : List Nat → List Nat
-  | 37 :: 117 :: a :: b :: c :: d :: rest =>
+/-- the loop of builtinUnescape (l.300): bytes → UTF-16 code units, fuel = len(input).  %uXXXX and %XX
+    contribute one unit; any other character is decoded (utf8.DecodeRuneInString) and re-encoded as units. -/
+def unescapeAux : Nat → List Nat → List Nat
+  | 0, _ => []
+  | _, [] => []
+  | fuel+1, 37 :: 117 :: a :: b :: c :: d :: rest =>
     if isHex a ∧ isHex b ∧ isHex c ∧ isHex d then
-      decode1 (unhex a * 4096 + unhex b * 256 + unhex c * 16 + unhex d) :: unescapeRunes rest
-    else 37 :: unescapeRunes (117 :: a :: b :: c :: d :: rest)
-  | 37 :: a :: b :: rest =>
-    if isHex a ∧ isHex b then (unhex a * 16 + unhex b) :: unescapeRunes rest
-    else 37 :: unescapeRunes (a :: b :: rest)
-  | c :: t => c :: unescapeRunes t
-  | [] => []
+      (unhex a * 4096 + unhex b * 256 + unhex c * 16 + unhex d) :: unescapeAux fuel rest
+    else 37 :: unescapeAux fuel (117 :: a :: b :: c :: d :: rest)
+  | fuel+1, 37 :: a :: b :: rest =>
+    if isHex a ∧ isHex b then (unhex a * 16 + unhex b) :: unescapeAux fuel rest
+    else 37 :: unescapeAux fuel (a :: b :: rest)
+  | fuel+1, c :: t =>
+    match decodeRune (c :: t) with
+    | some (r, w) => utf16Encode [r] ++ unescapeAux fuel ((c :: t).drop w)
+    | none => []
 
-/-- builtinUnescape: `string(output)` -/
-def unescape (v : SV) : List Nat := encodeRunes (unescapeRunes v.string)
+/-- builtinUnescape: `string(utf16.Decode(output))` -/
+def unescape (v : SV) : List Nat := let s := v.string; bytesOfUnits (unescapeAux s.length s)
 
 end OttoVerif.C13
